@@ -15,6 +15,7 @@
 import SF.Proofs.CborEnc
 import SF.Proofs.CborDecode
 import SF.Proofs.UbjEncTop
+import SF.Json.Enc
 namespace SF.Props.C10
 open SF SF.Cbor SF.Cbor.Cst SF.Cbor.Enc
 
@@ -166,3 +167,25 @@ theorem ubj_keyRef_same (s : Enc) (k : Bytes) : step s (.keyRef k) = step s (.ev
 theorem ubj_strRef_same (s : Enc) (b : Bytes) : step s (.strRef b) = step s (.ev (.str b)) := rfl
 
 end SF.PropsUbj.C10
+
+/-! ## JSON encoder -/
+
+namespace SF.PropsJson.C10
+open SF SF.Json SF.Json.Enc
+
+theorem execEvs_single (s : Enc) (e : Ev) : execEvs s [e] = exec s (acts s e) := by
+  simp only [execEvs]
+  rcases h : exec s (acts s e) with ⟨s', r⟩
+  cases r <;> rfl
+
+/-- C10 for the JSON encoder: EVERY extended event — typed arrays, typed maps, byte slices,
+by-reference strings and keys — at any position (any encoder state `s`) has exactly the effect
+of its expansion into basic events: the same bytes, the same result, the same final state, so
+whatever is written next is unaffected -/
+theorem json_ext_same (s : Enc) (x : XEv) : step s x = execEvs s x.expand := by
+  cases x <;> first
+    | rfl
+    | (simp only [step, XEv.expand]; rw [execEvs_single]; rfl)
+    | (simp only [step, XEv.expand]; rw [execEvs_single])
+
+end SF.PropsJson.C10
